@@ -87,7 +87,10 @@ pub enum Node {
     FuncDef(u8, Box<Node>),
 }
 
-pub const CASE_SUBJECTS: [&str; 4] = ["a", "b", "ab", ""];
+/// the last two contain a failing command substitution (`st` prints nothing, so their values are
+/// "a" and ""): the status of a `case` command that runs no item is zero all the same
+pub const CASE_SUBJECTS: [&str; 6] = ["a", "b", "ab", "", "a$(st 3)", "$(st 2)"];
+pub const CASE_SUBJECT_VALUES: [&str; 6] = ["a", "b", "ab", "", "a", ""];
 pub const CASE_PATTERNS: [&str; 7] = ["a", "b", "*", "a*", "?b", "''", "[!a]"];
 
 #[derive(Clone, Debug, PartialEq, Eq, Hash, Serialize, Deserialize)]
@@ -516,7 +519,7 @@ fn r_command(n: &Node, sf: &mut Surface, out: &mut String) {
         }
         Node::Case { subject, items } => {
             let subj = CASE_SUBJECTS[*subject as usize];
-            out.push_str(&format!("case {} in", if subj.is_empty() { "''" } else { subj }));
+            out.push_str(&format!("case {} in", if subj.is_empty() { "''" } else if subj.starts_with('$') { "\"$(st 2)\"" } else { subj }));
             out.push_str(sf.lb());
             for (pats, b) in items {
                 if sf.next(2) == 1 {
@@ -1077,17 +1080,26 @@ impl<'a> Model<'a> {
                 Flow::Normal
             }
             Node::Case { subject, items } => {
-                let subj: Vec<char> = CASE_SUBJECTS[*subject as usize].chars().collect();
+                let subj: Vec<char> = CASE_SUBJECT_VALUES[*subject as usize].chars().collect();
+                let subst = CASE_SUBJECTS[*subject as usize].contains("$(");
                 for (pats, b) in items {
                     for pi in pats {
                         let ptext = CASE_PATTERNS[*pi as usize];
                         let pcs = if ptext == "''" { vec![] } else { fm::pcs_plain(ptext) };
                         let atoms = fm::parse(&pcs).expect("case patterns are well-defined");
                         if fm::full_match(&atoms, &subj) {
+                            if subst {
+                                // whether `$?` on entry to the item is that of the command
+                                // substitution or of the previous command is not specified
+                                self.unspecified = Some("`$?` on entry to a case item after a command substitution in the subject");
+                            }
                             self.class("case-item-run");
                             return self.exec(p, b);
                         }
                     }
+                }
+                if subst {
+                    self.class("case-without-match-after-failing-substitution");
                 }
                 p.status = Sym::Known(0);
                 Flow::Normal
